@@ -64,6 +64,9 @@ def _pa(prog: Program, f: Func) -> PathAnalysis:
     return _PA[k]
 
 
+LATER_RULES = ' Later rules: evaluator membership by primitives, not by name; (R15.8) no memo keyed by evaluated values; (R15.9) no evaluated set reaches a call that can see its order.'
+
+
 def check(prog: Program, tier: str) -> Result:
     res = Result(
         "C15",
@@ -83,6 +86,7 @@ def check(prog: Program, tier: str) -> Result:
             "the values computed by the Python operations themselves, evaluation cost."),
         rule_text="instances = operator table entries, evaluator call sites and primitive foreign calls, whitelist members, consumer handlers",
     )
+    res.explanation += LATER_RULES
     res.trusted_base = ["CPython ast, builtins exception hierarchy", "reference operator table OPERATOR_REF and impure-builtin blacklist in sa/props/c15.py"]
     res.assumptions = ["methods of ast.Constant receivers (str, bytes, numbers, None, bool, Ellipsis) are pure because the receivers are immutable"]
     ev = Evaluator(prog)
